@@ -105,7 +105,7 @@ fn valve_expected(gs: &GatheringSettings, srv: &ValveServer, ffow: bool) -> Vec<
     exp
 }
 
-fn java_expected(settings: &Option<RequestSettings>, port: u16) -> Vec<u8> {
+pub fn java_expected(settings: &Option<RequestSettings>, port: u16) -> Vec<u8> {
     let s = settings.clone().unwrap_or_default();
     let mut body = vec![0u8];
     body.extend(varint(s.protocol_version));
@@ -120,7 +120,7 @@ fn java_expected(settings: &Option<RequestSettings>, port: u16) -> Vec<u8> {
 }
 
 /// Is `d` = expected Java stream, optionally followed by one ping packet (0 or 8 payload bytes)?
-fn java_matches(exp: &[u8], d: &[u8]) -> bool {
+pub fn java_matches(exp: &[u8], d: &[u8]) -> bool {
     if !d.starts_with(exp) {
         return false;
     }
